@@ -810,15 +810,18 @@ func C10(c *core.Ctx) {
 		if it == nil || !haveLim {
 			c.Und("R10.14", "anchor:internal-transport", "-", "InternalTransport or its frame-limit constant not found")
 		} else {
+			seenCmp := map[ssa.Instruction]bool{}
 			for _, fn := range p.FuncsIn(core.ModPath + "/fw/face") {
-				if core.FuncID(core.RootOf(fn)).Recv != "InternalTransport" {
+				if fn.Parent() != nil || core.FuncID(fn).Recv != "InternalTransport" {
 					continue
 				}
-				core.Instrs(fn, func(in ssa.Instruction) {
+				// (the test may sit in a predicate shared by the transports: exceedsMTU(frame))
+				core.InstrsDeep(fn, func(in ssa.Instruction) {
 					bo, ok := in.(*ssa.BinOp)
-					if !ok || (bo.Op != token.GTR && bo.Op != token.GEQ && bo.Op != token.LSS && bo.Op != token.LEQ) {
+					if !ok || seenCmp[in] || (bo.Op != token.GTR && bo.Op != token.GEQ && bo.Op != token.LSS && bo.Op != token.LEQ) {
 						return
 					}
+					seenCmp[in] = true
 					x, y := bo.X, bo.Y
 					if _, isLen := core.LenOf(y); isLen {
 						x, y = y, x
@@ -831,7 +834,7 @@ func C10(c *core.Ctx) {
 						return // a presence test (len > 0), not a frame limit
 					}
 					nCmp++
-					c.Decide(!isC || k >= lim, "R10.14", fmt.Sprintf("internal-face-frame-limit:%s", core.FuncName(fn)), c.Pos(in), "frames are measured against the transport's frame limit", fmt.Sprintf("%s measures a frame of the internal face against the constant %d, below the transport's frame limit (%d = largest packet plus link-layer headers) that the other direction applies: a packet of legal size that management sends with its NDNLPv2 headers (PIT token, next-hop face id) is dropped — delivered zero times", core.FuncName(fn), k, lim))
+					c.Decide(!isC || k >= lim, "R10.14", fmt.Sprintf("internal-face-frame-limit:%s", core.FuncName(in.Parent())), c.Pos(in), "frames are measured against the transport's frame limit", fmt.Sprintf("%s measures a frame of the internal face against the constant %d, below the transport's frame limit (%d = largest packet plus link-layer headers) that the other direction applies: a packet of legal size that management sends with its NDNLPv2 headers (PIT token, next-hop face id) is dropped — delivered zero times", core.FuncName(fn), k, lim))
 				})
 			}
 			c.Floor("R10.14", "size tests on frames in the internal transport", nCmp, 2)
